@@ -2,7 +2,7 @@
 # usage: tools/run_all.sh [quick|thorough] [IDs...]   - runs the checks sequentially, one summary line each
 tier="${1:-quick}"; shift || true
 ids="$@"; [ -z "$ids" ] && ids="C01 C02 C03 C04 C05 C06 C07 C08 C09 C10 C11 C12 C13 C14 C15 C16 C17 C18 C19"
-cd /verif
+cd "$(dirname "$(readlink -f "$0")")/.."
 for p in $ids; do
   s=$(date +%s); out=$(./check $p $tier 2>&1); rc=$?; e=$(date +%s)
   echo "$p rc=$rc $((e-s))s $(echo "$out" | grep -E "OK \(|VIOLATION|TOOL-ERROR" | head -2 | tr '\n' ' ' | cut -c1-200)"
